@@ -226,13 +226,20 @@ def build_extracted(name: str, extract_v: str, driver_ml: str, timeout: int = 60
         shutil.copy(os.path.join(VERIF, 'ocaml', driver_ml), os.path.join(d, 'driver.ml'))
         mls = sorted(f for f in os.listdir(d) if f.endswith('.ml') and f != 'driver.ml')
         mlis = [f[:-3] + '.mli' for f in mls if os.path.exists(os.path.join(d, f[:-3] + '.mli'))]
-        cmd = ['ocamlfind', 'ocamlopt', '-inline', '100', '-w', '-a', '-o', exe]
+        # link into a private file and rename it into place: another check that shares this driver (C01-C05 share
+        # `codec`) may be EXECUTING driver.exe right now without holding the build lock; a rename is atomic, so it sees
+        # either the old or the new complete executable, never a half-written one
+        tmp_exe = exe + '.tmp%d' % os.getpid()
+        cmd = ['ocamlfind', 'ocamlopt', '-inline', '100', '-w', '-a', '-o', tmp_exe]
         for mli, ml in zip(mlis, mls):
             cmd += [mli, ml]
         cmd += ['driver.ml']
         q = run(cmd, cwd=d, timeout=timeout)
         if q.returncode != 0:
+            if os.path.exists(tmp_exe):
+                os.unlink(tmp_exe)
             return False, exe, q.stdout[-3000:]
+        os.replace(tmp_exe, exe)
     return True, exe, ''
 
 
